@@ -17,6 +17,8 @@ INVARIANT RestartHoldsWholeHistory
 INVARIANT MergedUnchanged
 INVARIANT RestartIsInit
 INVARIANT ProbesServeLive
+INVARIANT TouchedNodesAreWritten
+INVARIANT TouchingHappens
 INVARIANT RestartedStatesDiffer
 INVARIANT RunningFileHoldsWrittenNodes
 INVARIANT ScheduleIsNestedLoop
